@@ -77,7 +77,13 @@ type panicSite struct {
 }
 
 // PanicFree enumerates and discharges the panic sources of fns (a closed set: calls must stay inside it or go to total callees).
-func (c *Ctx) PanicFree(pkg string, fns []*ssa.Function) {
+func (c *Ctx) PanicFree(pkg string, fns []*ssa.Function) { c.panicFree(pkg, fns, false) }
+
+// BoundsSafe is PanicFree restricted to index/slice bounds and integer
+// division: the other panic sources (calls, assertions) are not examined.
+func (c *Ctx) BoundsSafe(pkg string, fns ...*ssa.Function) { c.panicFree(pkg, fns, true) }
+
+func (c *Ctx) panicFree(pkg string, fns []*ssa.Function, boundsOnly bool) {
 	bce := c.remainingBoundsChecks(pkg)
 	inSet := map[*ssa.Function]bool{}
 	for _, f := range fns {
@@ -121,7 +127,7 @@ func (c *Ctx) PanicFree(pkg string, fns []*ssa.Function) {
 				case *ssa.SliceToArrayPointer:
 					kind = "slice to array conversion"
 				}
-				if kind == "" {
+				if kind == "" || boundsOnly && kind != "bounds" && kind != "integer division" {
 					continue
 				}
 				c.inst(kind + " <- " + c.siteStr(in))
